@@ -870,11 +870,13 @@ class SurrogatesS(Subject):
             def q(o):
                 import random
                 e = o.embedding
+                st = random.getstate()
                 random.seed(7)
                 try:
                     return o.twin_surrogates(d, tau, 0.3, 2)
                 finally:
                     o.embedding = e
+                    random.setstate(st)     # (the seeding is this query's)
             return q
         return [("twins(0.3,2)", lambda o: o.twins(0.3, 2)),
                 ("twin_surrogates(1,1,0.3,2)", tw(1, 1)),
@@ -953,6 +955,14 @@ class CouplingAnalysisS(Subject):
                            lambda o, t=tau: o.information_transfer(
                                tau_max=t, estimator="gauss",
                                lag_mode="max")))
+        # the nearest-neighbour estimators (they break ties with noise drawn
+        # from the global generator)
+        qs.append(("mutual_information(tau_max=1,knn)",
+                   lambda o: o.mutual_information(
+                       tau_max=1, estimator="knn", knn=3, lag_mode="all")))
+        qs.append(("information_transfer(tau_max=2,knn)",
+                   lambda o: o.information_transfer(
+                       tau_max=2, estimator="knn", knn=3, lag_mode="max")))
         return qs
 
 
